@@ -92,8 +92,9 @@ REGISTRY = {
                       {"module": "props.readers", "units": ["fixed", "audioreader"]},
                       {"module": "props.sources", "units": ["buffer_read", "file_read", "file_open"], "include_all": True},
                       # "the regions are exactly the tokenizer segmentation (C01-C04) of the per-window decisions (C07)"
-                      {"module": "props.tokenizer", "units": ["lemmas", "ctor", "process", "post_process", "iter_tokens", "tokenize"],
-                       "also_tags": ["C01", "C02", "C03", "C04"]},
+                      # ... of the tokenizer AS split() USES IT: fresh object per call, no initial phase (context "split")
+                      {"module": "props.tokenizer", "units": ["lemmas", "process", "post_process", "iter_tokens", "tokenize"],
+                       "also_tags": ["C01", "C02", "C03", "C04"], "opts": {"context": "split"}, "exclude": [":entry"]},
                       {"module": "props.validator", "units": ["to_array", "energy", "selector", "is_valid"], "also_tags": ["C07"]}],
             "witness": "api", "assumptions": SPLIT_ASSUME + [
                 "the last sentence of C05 (regions are the tokenizer segmentation of the per-window decisions) is the "
@@ -104,8 +105,9 @@ REGISTRY = {
     "C06": {"parts": [{"module": "props.split", "units": ["dtnw", "split"]},
                       {"module": "props.readers", "units": ["fixed"]},
                       # the event-level sentences are the tokenizer's length and silence bounds at the proved window counts
-                      {"module": "props.tokenizer", "units": ["lemmas", "ctor", "process", "post_process", "iter_tokens"],
-                       "also_tags": ["C02", "C03"]}],
+                      # (of the tokenizer as split() uses it: fresh object per call, no initial phase)
+                      {"module": "props.tokenizer", "units": ["lemmas", "process", "post_process", "iter_tokens"],
+                       "also_tags": ["C02", "C03", "C04"], "opts": {"context": "split"}, "exclude": [":entry"]}],
             "witness": "api", "assumptions": SPLIT_ASSUME + [
                 "_duration_to_nb_windows is proved in exact binary64 semantics for every float quotient: one linear-integer "
                 "problem per binary exponent (83 slices cover [2**-30, 2**53)), plus (0, 2**-30) and integers >= 2**53; "
@@ -113,8 +115,9 @@ REGISTRY = {
                 "the only IEEE fact used is that a correctly rounded subtraction returns the exact result when it is "
                 "representable (representability is an obligation of each slice)",
                 "1e-9 is read as the Python literal (the double nearest to 10**-9) in code and spec",
-                "the event-level sentences of C06 are C02/C03 instantiated with the proved window counts; the tokenizer units "
-                "and their C02/C03 obligations are part of this check"]},
+                "the event-level sentences of C06 are C02/C03/C04 instantiated with the proved window counts; the tokenizer units "
+                "run inside this check in the context split() creates (fresh tokenizer per call, init_min = init_max_silence = 0) "
+                "and their C02/C03/C04 obligations are part of it"]},
     "C07": {"module": "props.validator", "units": ["to_array", "energy", "selector", "is_valid", "monotone"],
             "witness": "api", "assumptions": [
                 "numpy is a LIBRARY MODEL (pyvc/npmodel.py, assumed): frombuffer(int8/16/32) = signed little-endian decode of "
